@@ -99,8 +99,9 @@ CLAIMED = {
              "regenerated from /repo. A second machine models rbasex's in-memory transform caches (_bs_prm, _valid_key, _trf, "
              "_tri_full, _tri_prm, _tri; calls with any basis / mask of valid radii / direction / regularisation, cache_cleanup of "
              "each kind): an invariant of the globals is preserved by every operation, so after any history a call returns matrices "
-             "made from exactly what it asked for. Tie: seeded histories on the real get_bs_cached functions vs the machines after every "
-             "operation (for rbasex: outcome and all six globals after every call); oracles: returned basis vs fresh, transform-level histories and single-parameter changes vs a "
+             "made from exactly what it asked for; a third machine does the same for basex's basis / forward / inverse caches keyed by "
+             "[n, sigma] and [reg, correction, dr]. Tie: seeded histories on the real get_bs_cached functions vs the machines after every "
+             "operation (for rbasex and basex: outcome and all cache globals after every call; for basex also the returned matrix vs a fresh process's); oracles: returned basis vs fresh, transform-level histories and single-parameter changes vs a "
              "pristine re-imported module in a forked child, cleanup exactness on a populated directory.",
         note="Trusted: Lean kernel + standard axioms; array contents are abstract descriptors and `sound` encodes crop facts "
              "assumed of the numeric bases; rbasex's matrices are tags (what they were computed from), their numeric content is the "
@@ -145,7 +146,9 @@ CLAIMED = {
         text="Lean 4 theorems: the flipped-Pascal cos^n→cos^n sin^m conversion evaluates to the same function (up to five terms, any "
              "commutative ring with c+s=1); the Legendre conversion matrices for orders 0..8 with/without odd terms are exact "
              "inverses of the Legendre coefficient matrices (kernel-decided over rationals); results are invariant under weight "
-             "scaling and under the values of zero-weight pixels (algebraic core). Tie: Results.cossin()/harmonics() vs the exact "
+             "scaling (1, 2 and 3 angular terms) and under the values of zero-weight pixels, depend only on the multiset of a bin's pixel "
+             "contributions (so pixel order, storage layout and the left-right mirror are immaterial), and the top-bottom mirror flips "
+             "exactly the odd terms (algebraic core of Distributions, any field). Tie: Results.cossin()/harmonics() vs the exact "
              "tables. Oracle: same-function evaluation at random θ, I=4πr²P0, β=Pn/P0, windows, and the image-symmetry invariances.",
         note="Trusted: Lean kernel + standard axioms; Bonnet recurrence as the definition of P_n; mirror / origin-form / rmax-prefix "
              "invariances are measured on the implementation only.",
